@@ -17,7 +17,7 @@ import progs
 
 THEOREM_MODULES = []
 REQUIRED_THEOREMS = []
-for _m, _t in (("C05Tables", ["infix_defined", "binary_prec_succ_ok"]), ("SitesInventory", ["sites_accounted_compile"]), ("C03", ["scan_total"])):
+for _m, _t in (("C05Tables", ["infix_defined", "binary_prec_succ_ok"]), ("SitesInventory", ["sites_accounted_compile_time"]), ("C03", ["scan_total"])):
     if os.path.exists(os.path.join(vlib.LEAN_DIR, "Yarel", "Props", _m + ".lean")):
         THEOREM_MODULES.append("Yarel.Props." + _m)
         REQUIRED_THEOREMS += _t
